@@ -174,10 +174,13 @@ THEOREMS = [
   webp_sanitize lossless true lenient ms inp fuel = Ok tt ->
   webp_spec (fun w h b => is_ok (lossless w h b)) true inp = true"""),
 ]
+THEOREMS.append(("C14_unsupported_chunk_names_unknown", """forall (R : reader) (lossless : N -> N -> bytes -> res unit) (allow : bool) (fuel : nat) (s : rst R) (t : bytes),
+  (forall w h b t', lossless w h b <> EParse (UnsupportedChunk t')) ->
+  fst (run R (webp_prog lossless allow fuel) s) = EParse (UnsupportedChunk t) -> known t = false"""))
 _WREQ = ["From Coq Require Import List NArith Bool.", "From Coq.Strings Require Import Byte.",
          "From MS Require Import Base.Bytes Base.Outcome Base.Prog Webp.Container Webp.Grammar Webp.ContainerProofsAllow Props.C14c.",
          "Open Scope N_scope."]
-REQUIRES_FOR = {n: _WREQ for n in ("C14_unknown_chunks_only", "C14_unknown_chunks_only_any_reader", "C14_known_chunk_never_out_of_place")}
+REQUIRES_FOR = {n: _WREQ for n in ("C14_unknown_chunks_only", "C14_unknown_chunks_only_any_reader", "C14_known_chunk_never_out_of_place", "C14_unsupported_chunk_names_unknown")}
 TRUSTED = fam.TRUSTED_COMMON + ["axioms: none (Print Assumptions of every theorem = Closed under the global context)",
                                 "part (c): hand-written model Webp/Container.v and grammar Webp/Grammar.v (see C06), harness/src/webp.rs, ocaml/webp.ml"]
 ASSUMPTIONS = fam.ASSUMPTIONS_COMMON + [
